@@ -145,7 +145,8 @@ def directed(rng, n):
     for _ in range(n):
         counter = [0]
         p, cur = mp.gen_mprog(rng, rng.choice([0, 1, 2, 3]), counter, allow_binary=rng.random() < 0.3, p_xfer=0.2, p_mat=0.1)
-        kind = rng.choice(["xfer_mat", "doomed_chain", "doomed_xfer", "identity", "nested_mat", "xfer_ops_mat", "join_sides"])
+        kind = rng.choice(["xfer_mat", "doomed_chain", "doomed_xfer", "identity", "nested_mat", "xfer_ops_mat", "join_sides",
+                           "mat_over_pruned_chain"])
         dest = rng.choice(mp.ENGINES)
         counter[0] += 1
         m1 = counter[0]
@@ -153,7 +154,15 @@ def directed(rng, n):
         m2 = counter[0]
         counter[0] += 1
         lid = counter[0]
-        if kind == "xfer_mat":
+        if kind == "mat_over_pruned_chain":
+            # a materialization directly above a chain one of whose branches the Processor prunes as statically empty
+            p = ("xfer", dest, p)
+            if rng.random() < 0.7 and cur:
+                o, cur = gen.gen_op(rng, cur, weights=[1, 0, 1, 3, 0, 0])
+                p = ("un", o, mp.DEFAULT, p)
+            doomed = ("leaf", lid, dest, sorted(cur), [], (0, 0), "doomed")
+            p = ("mat", m1, ("chain", p, doomed) if rng.random() < 0.6 else ("chain", doomed, p))
+        elif kind == "xfer_mat":
             p = ("mat", m1, ("xfer", dest, p))
         elif kind == "doomed_chain":
             here = mp.engine_of_prog(p)
